@@ -406,6 +406,28 @@ def g5_no_cross_bloc_state(ctx):
                              f"`{astx.u(node)[:70]}`: state of earlier blocs (e.g. their zero-support candidates or pool) leaks into later blocs' ballots")
     if n < 7:
         ctx.vanished(f"per-bloc loops: only {n} found")
+    # a bloc loop's variable read after the loop is the LAST bloc, whatever bloc the surrounding code is about
+    nleak = 0
+    for f in _gen_functions(prog) + [g for g in prog.iter_functions(BG) if not isinstance(g.node, ast.Lambda) and g.cls is not None and g.name.startswith("_")]:
+        seen_f = set()
+        pmf = astx.parents(f.node)
+        for lp in (x for x in astx.walk_own(f.node) if isinstance(x, ast.For) and re.search(r"self\.blocs|bloc_voter_prop", astx.u(x.iter))):
+            nleak += 1
+            for v in astx.assigned_names(lp.target):
+                later = [x for x in astx.walk_own(f.node) if isinstance(x, ast.Name) and x.id == v and isinstance(x.ctx, ast.Load) and x.lineno > getattr(lp, "end_lineno", lp.lineno)
+                         and not any(y is x for y in ast.walk(lp))]
+                for x in later:
+                    # re-bound in between (another loop / assignment / comprehension of its own)?
+                    rd = astx.reaching_defs(f.node, v, x)
+                    own = astx.enclosing(x, pmf, (ast.ListComp, ast.SetComp, ast.DictComp, ast.GeneratorExp))
+                    bound_by_comp = own is not None and any(v in astx.assigned_names(g.target) for g in own.generators)
+                    if bound_by_comp or (rd and not any(st is lp for st, _ in rd)):
+                        continue
+                    if (f.qualname, v, x.lineno) in seen_f:
+                        continue
+                    seen_f.add((f.qualname, v, x.lineno))
+                    ctx.violated(f, x, f"{f.short}: loop variable `{v}` of `for {astx.u(lp.target)} in {astx.u(lp.iter)}` is read after the loop",
+                                 f"`{astx.u(astx.stmt_of(x, pmf))[:80]}`: after the loop `{v}` is the last bloc; the ballots of every bloc are then built from the last bloc's data")
     from vk import wiring
     wiring.check_swapped(ctx, ("src/votekit/ballot_generator.py", "src/votekit/pref_interval.py"), "generators")
     # zero-support candidates survive interval combination (shared with C15.R2)
@@ -448,6 +470,8 @@ def _ac_types_in_constructor(order):
 
 
 FAULTS = [
+    ("bloc loop variable read after its loop", [(BGP, "        # dictionary to store preference profiles by bloc\n        pp_by_bloc = {b: PreferenceProfile() for b in self.blocs}\n\n        for bloc in self.blocs:\n            # number of voters in this bloc\n            num_ballots = ballots_per_block[bloc]\n            ballot_pool = [Ballot()] * num_ballots\n            non_zero_cands",
+                                                "        # dictionary to store preference profiles by bloc\n        pp_by_bloc = {b: PreferenceProfile() for b in self.blocs}\n        for b0 in self.blocs:\n            pass\n        leaked = self.bloc_voter_prop[b0]\n\n        for bloc in self.blocs:\n            # number of voters in this bloc\n            num_ballots = ballots_per_block[bloc]\n            ballot_pool = [Ballot()] * num_ballots\n            non_zero_cands")], "C14.G5"),
     ("AC voter types fixed by the constructor in the other order than the shares (seeded C16-r2-1)", _ac_types_in_constructor(["cross", "bloc"]), "C14.G1"),
     ("apportion by jefferson", [(BGP, "                apportion.compute(\"huntington\", bloc_props, number_of_ballots),\n            )\n        )\n\n        # dictionary to store preference profiles by bloc", "                apportion.compute(\"jefferson\", bloc_props, number_of_ballots),\n            )\n        )\n\n        # dictionary to store preference profiles by bloc")], "C14.G1"),
     ("apportion N-1", [(BGP, "                apportion.compute(\"huntington\", voter_props, number_of_ballots),\n            )\n        )\n\n        pp_by_bloc = {b: PreferenceProfile() for b in self.blocs}\n\n        for i, bloc in enumerate(self.blocs):\n            ballot_pool = []", "                apportion.compute(\"huntington\", voter_props, number_of_ballots - 1),\n            )\n        )\n\n        pp_by_bloc = {b: PreferenceProfile() for b in self.blocs}\n\n        for i, bloc in enumerate(self.blocs):\n            ballot_pool = []")], "C14.G1"),
